@@ -4,6 +4,7 @@ package main
 
 import (
 	"fmt"
+	"go/constant"
 	"go/token"
 	"go/types"
 	"regexp"
@@ -27,6 +28,23 @@ var patternOps = map[string]bool{"LIKE": true, "GLOB": true, "REGEXP": true, "MA
 
 // isSQLCall: call of (*sql.DB|*sql.Tx).Exec/Query/QueryRow[Context].
 func isSQLCall(c ssa.CallInstruction) (recvKind string, method string, ok bool) {
+	// a local interface over *sql.DB / *sql.Tx (`type execer interface{ Exec(string, ...any) (sql.Result, error) }`)
+	if cc := c.Common(); cc.IsInvoke() && cc.Method != nil {
+		name := strings.TrimSuffix(cc.Method.Name(), "Context")
+		if name == "Exec" || name == "Query" || name == "QueryRow" {
+			if sig, isSig := cc.Method.Type().(*types.Signature); isSig && sig.Results().Len() >= 1 {
+				rt := sig.Results().At(0).Type()
+				if pt, isPtr := rt.(*types.Pointer); isPtr {
+					rt = pt.Elem()
+				}
+				if n, isNamed := rt.(*types.Named); isNamed && n.Obj().Pkg() != nil && n.Obj().Pkg().Path() == "database/sql" {
+					if f := cc.Method; f.Pkg() == nil || f.Pkg().Path() != "database/sql" {
+						return "iface", name, true
+					}
+				}
+			}
+		}
+	}
 	f := calleeFunc(c)
 	if f == nil || f.Pkg() == nil || f.Pkg().Path() != "database/sql" {
 		return "", "", false
@@ -334,7 +352,11 @@ func init() {
 						r.bad(key, p.Rel(c.Pos()), what, "cannot locate the oldoid placeholder: "+perr.Error())
 						continue
 					}
-					if kind != "Tx" || resolveSub(c.Common().Args[0], e.sub) != ssa.Value(tx) {
+					recv := c.Common().Value
+					if !c.Common().IsInvoke() {
+						recv = c.Common().Args[0]
+					}
+					if (kind != "Tx" && kind != "iface") || resolveSub(recv, e.sub) != ssa.Value(tx) {
 						r.bad(key, p.Rel(c.Pos()), what, "the INSERT is not issued on the transaction handle")
 						continue
 					}
@@ -702,4 +724,129 @@ func scannedFromTx(fn *ssa.Function, al *ssa.Alloc, tx ssa.Value) bool {
 		}
 	})
 	return ok
+}
+
+// ---- fs ref store: files are replaced or appended to, never overwritten in place ----
+
+func init() {
+	register(&Rule{
+		ID: "C15-j", Template: "T10 agreement (open flags of a rewritten file)",
+		Doc: "A ref or log file that is written anew does not keep the tail of what was there: in pkg/ref/fs every os.OpenFile that opens for writing carries os.O_TRUNC, os.O_APPEND or os.O_EXCL in every flag value that reaches it (constants, `|` expressions and flag parameters of helpers, followed to the helpers' call sites). Copying a log over a longer one through a descriptor opened with O_CREATE|O_WRONLY alone leaves the old entries behind the new ones — the copied ref's log is no longer the source's log.",
+		Min: 1,
+		Run: func(p *Program, r *RuleResult) error {
+			if _, err := p.SSAFunc("pkg/ref/fs.(*Store).Copy"); err != nil {
+				return err
+			}
+			fns := p.FuncsInPkg("pkg/ref/fs")
+			r.Analysed = len(fns)
+			// the flag values of the configuration that is being analysed
+			osPkg, err := p.TypesPkg("os")
+			if err != nil {
+				return err
+			}
+			flag := func(name string) int64 {
+				if c, ok := osPkg.Scope().Lookup(name).(*types.Const); ok {
+					if v, ok := constant.Int64Val(constant.ToInt(c.Val())); ok {
+						return v
+					}
+				}
+				return -1
+			}
+			oWRONLY, oRDWR, oAPPEND, oEXCL, oTRUNC := flag("O_WRONLY"), flag("O_RDWR"), flag("O_APPEND"), flag("O_EXCL"), flag("O_TRUNC")
+			if oWRONLY < 0 || oRDWR < 0 || oAPPEND < 0 || oEXCL < 0 || oTRUNC < 0 {
+				return &AnchorError{"os.O_* constants"}
+			}
+			// possible values of an int expression
+			var eval func(fn *ssa.Function, v ssa.Value, depth int) ([]int64, bool)
+			eval = func(fn *ssa.Function, v ssa.Value, depth int) ([]int64, bool) {
+				v = stripConv(v)
+				if k, ok := constInt(v); ok {
+					return []int64{k}, true
+				}
+				switch x := v.(type) {
+				case *ssa.BinOp:
+					if x.Op != token.OR {
+						return nil, false
+					}
+					as, ok1 := eval(fn, x.X, depth)
+					bs, ok2 := eval(fn, x.Y, depth)
+					if !ok1 || !ok2 {
+						return nil, false
+					}
+					var out []int64
+					for _, a := range as {
+						for _, b := range bs {
+							out = append(out, a|b)
+						}
+					}
+					return out, true
+				case *ssa.Phi:
+					var out []int64
+					for _, e := range x.Edges {
+						vs, ok := eval(fn, e, depth)
+						if !ok {
+							return nil, false
+						}
+						out = append(out, vs...)
+					}
+					return out, true
+				case *ssa.Parameter:
+					if depth <= 0 {
+						return nil, false
+					}
+					idx := -1
+					for i, prm := range fn.Params {
+						if prm == x {
+							idx = i
+						}
+					}
+					node := p.CG.Nodes[fn]
+					if idx < 0 || node == nil || len(node.In) == 0 {
+						return nil, false
+					}
+					var out []int64
+					for _, e := range node.In {
+						if e.Site == nil || idx >= len(e.Site.Common().Args) {
+							return nil, false
+						}
+						vs, ok := eval(e.Caller.Func, e.Site.Common().Args[idx], depth-1)
+						if !ok {
+							return nil, false
+						}
+						out = append(out, vs...)
+					}
+					return out, true
+				}
+				return nil, false
+			}
+			n := 0
+			for _, fn := range fns {
+				eachCall(fn, func(c ssa.CallInstruction) {
+					f := calleeFunc(c)
+					if f == nil || f.Pkg() == nil || f.Pkg().Path() != "os" || f.Name() != "OpenFile" || len(c.Common().Args) < 2 {
+						return
+					}
+					key := callKey(fn, c) + "|flags"
+					what := "a file opened for writing is truncated, appended to or created exclusively"
+					n++
+					vals, ok := eval(fn, c.Common().Args[1], 3)
+					if !ok {
+						r.bad(key, p.Rel(c.Pos()), what, "the open flags are not a combination of constants that can be followed to the call sites")
+						return
+					}
+					for _, v := range vals {
+						if v&(oWRONLY|oRDWR) != 0 && v&(oTRUNC|oAPPEND|oEXCL) == 0 {
+							r.bad(key, p.Rel(c.Pos()), what, fmt.Sprintf("flags %#x open for writing without O_TRUNC / O_APPEND / O_EXCL: shorter new content leaves the tail of the old file in place", v))
+							return
+						}
+					}
+					r.ok(key, p.Rel(c.Pos()), what)
+				})
+			}
+			if n == 0 {
+				r.ok("pkg/ref/fs|no-OpenFile", "", "a file opened for writing is truncated, appended to or created exclusively")
+			}
+			return nil
+		},
+	})
 }
